@@ -53,6 +53,36 @@ def case_for(seed, stream, idx, tier):
         opts = gen.rand_opts(r)
         if r.random() < 0.6:
             opts.pop("fast_match", None)
+    elif stream == "near":
+        # C03, converse direction with a minimal difference: a copy with exactly one primitive change
+        L = gen.dup_heavy_tree(r, maxn) if r.random() < 0.4 else gen.rand_tree(r, maxn)
+        L.tail = None
+        L = L.number(0)
+        R = L.copy()
+        nodes = list(R.iter())
+        n = r.choice(nodes[:1] * 3 + nodes)   # the root more often: its match is forced
+        m = r.random()
+        if n.kind == "c" or m < 0.2:
+            n.text = (n.text or "") + r.choice(["x", " y", "1"])
+        elif m < 0.55:
+            if n.attrs and r.random() < 0.7:
+                i = r.randrange(len(n.attrs))
+                k, v = n.attrs[i]
+                n.attrs[i] = (k, v + r.choice(["1", "x", " "]))
+            else:
+                k = r.choice([a for a in gen.ATTRS if a not in dict(n.attrs)] or ["zz"])
+                n.attrs.append((k, r.choice(gen.VALUES)))
+        elif m < 0.7 and n is not nodes[0]:
+            n.tail = (n.tail or "") + r.choice(["t", " u"])
+        elif m < 0.85 and len(n.kids) >= 2:
+            i = r.randrange(len(n.kids) - 1)
+            n.kids[i], n.kids[i + 1] = n.kids[i + 1], n.kids[i]
+        elif n.kind == "e":
+            n.tag = n.tag + "x"
+        else:
+            n.text = (n.text or "") + "z"
+        R = R.number(1000)
+        opts = gen.rand_opts(r)
     elif stream == "equal":
         if r.random() < 0.5:
             L = gen.dup_heavy_tree(r, maxn)
@@ -364,7 +394,11 @@ def run_cases(seed, lo, hi, extra):
         # C03 emptiness
         eq = xt.doc_eq(L, R, ignored=ign) is None
         if eq and script:
-            st.failures.append({"prop": "C03", "sig": "C03/equal-documents-nonempty-script", **desc})
+            if ign and xt.doc_eq(L, R) is not None:
+                # equal only up to the ignored attributes: the first clause of C13
+                st.failures.append({"prop": "C13", "sig": "C13/ignored-only-differences-nonempty-script", **desc})
+            else:
+                st.failures.append({"prop": "C03", "sig": "C03/equal-documents-nonempty-script", **desc})
         if (not eq) and not script:
             st.failures.append({"prop": "C03", "sig": "C03/different-documents-empty-script", **desc})
         if eq:
@@ -473,7 +507,12 @@ def run_ns_cases(seed, lo, hi, extra):
                         st.failures.append({"prop": "C04", "sig": f"C04/path-selects-{len(hits)}-nodes/{an}", "action_index": k, **desc})
                     if not path.endswith("]"):
                         st.failures.append({"prop": "C04", "sig": "C04/last-step-without-index", "action_index": k, **desc})
+                before = xt.canon_tree(xt.from_lxml(tree)) if an not in ("MoveNode", "InsertNamespace", "DeleteNamespace") else None
                 p.handle_action(a, tree)
+                # C17 on namespaced documents: every action but a namespace action changes the document
+                # (moves are left to the id-level replay of the namespace-free streams)
+                if before is not None and xt.canon_tree(xt.from_lxml(tree)) == before:
+                    st.failures.append({"prop": "C17", "sig": f"C17/action-changes-nothing/ns/{an}", "action_index": k, **desc})
         except Exception as e:  # noqa
             st.failures.append({"prop": "C04", "sig": f"C04/replay-raises/{type(e).__name__}", **desc})
         # C18 / C02 through the formatters
